@@ -9,9 +9,11 @@ import (
 	"encoding/hex"
 	"encoding/json"
 	"fmt"
+	"os"
 	"runtime"
 	"sync"
 	"sync/atomic"
+	"time"
 
 	"github.com/aldas/go-modbus-client/server"
 	"github.com/aldas/go-modbus-client/verifshim/vsched"
@@ -64,8 +66,10 @@ func receive(a *server.ModbusTCPAssembler, chunk []byte) (resp []byte, closeConn
 		if atomic.LoadInt64(&vsched.FreeGo) == g0 {
 			return
 		}
-		atomic.StoreInt32(&useSched, 1)
-		panic(needSched{})
+		// the assembler started a goroutine although probeGoroutines (run first) saw none: those goroutines are running free
+		// next to whatever the other workers of this process do - nothing in this process can be trusted any more
+		fmt.Printf("INCONCLUSIVE property=%s the assembler started goroutines on a path the start-up probe did not take\n", prop)
+		os.Exit(3)
 	}
 	// under the scheduler's default schedule (no deviations): should the assembler start goroutines of its own they run
 	// in a fixed order instead of racing freely (the process level explores their interleavings)
@@ -226,6 +230,7 @@ type handlerKind struct {
 }
 
 func run(tier string, shard, nsh int, res *ev.Result) {
+	probeGoroutines()
 	thorough := tier == "thorough"
 	handlers := []handlerKind{{"device", 0}, {"typed-error", 1}, {"typed-error", 2}, {"typed-error", 3}, {"typed-error", 4}, {"typed-error", 6}, {"wrapped-typed-error", 2}, {"wrapped-typed-error", 3}, {"generic-error", 0}}
 	var jobs []func(lc *local)
@@ -458,6 +463,7 @@ func run(tier string, shard, nsh int, res *ev.Result) {
 }
 
 func replay(check string, raw json.RawMessage, res *ev.Result) {
+	probeGoroutines()
 	if check == "process" {
 		var c Case2
 		json.Unmarshal(raw, &c)
@@ -523,5 +529,46 @@ func retryUnderSched(f func()) {
 	}()
 	if again {
 		f()
+	}
+}
+
+// probeGoroutines runs before anything else: a few representative reads (one request, two and three requests completed
+// by one read, a refused request, a request in two reads) go through a throw-away assembler on the plain path. If the
+// assembler starts goroutines of its own (vsched.FreeGo moves) every ReceiveRead call of this process is made under the
+// scheduler's default schedule instead (useSched) - a decision taken once, before any worker runs, because a goroutine
+// started outside an execution must never meet an installed one.
+func probeGoroutines() {
+	g0 := atomic.LoadInt64(&vsched.FreeGo)
+	cat := serverx.Catalogue(0x7000)
+	byN := func(name string) []byte {
+		for _, f := range cat {
+			if f.Name == name {
+				return append([]byte(nil), f.Bytes...)
+			}
+		}
+		panic(name)
+	}
+	streams := [][][]byte{
+		{byN("fc3")},
+		{append(byN("fc3"), byN("fc16")...)},
+		{append(append(byN("fc3"), byN("fc6")...), byN("fc1")...)},
+		{append(byN("unsupported-fc"), byN("fc3")...)},
+		{append(byN("fc3-refused"), byN("fc3-refused")...)},
+		{byN("fc3")[:5], byN("fc3")[5:]},
+		{append(byN("fc3-max"), byN("fc3-max")...), byN("fc3")},
+	}
+	for _, st := range streams {
+		h := &serverx.Handler{Dev: serverx.NewDevice(), Mode: "device"}
+		a := &server.ModbusTCPAssembler{Handler: h}
+		for _, chunk := range st {
+			func() {
+				defer func() { recover() }()
+				a.ReceiveRead(context.Background(), chunk, len(chunk))
+			}()
+		}
+	}
+	time.Sleep(50 * time.Millisecond) // whatever was started has long finished (instant handler)
+	if atomic.LoadInt64(&vsched.FreeGo) != g0 {
+		atomic.StoreInt32(&useSched, 1)
 	}
 }
